@@ -57,6 +57,11 @@ CLAIMED = {
    text="Bounded (3 buffered rows, one grouping expression, key values from a 2-element domain - every assignment, symbolically): partition_output_buffer yields one group per distinct key value, every row in the group of its own key and in no other, in buffer order; the grouped output block writes exactly one row per distinct key value, showing the key and the aggregate computed over the rows of that group only, the group COUNTs adding up to the ungrouped COUNT, with separators only between rows; ORDER BY over an aggregate sorts the group rows numerically (2 witnesses). The grouping keys (also unselected ones) are evaluated for every accepted entry and reach the row map the partition reads. parse_group_by is panic-free and terminating for every token vector (Verus).",
    note="Bounded (3 rows, 1 grouping expression, columns key + COUNT). Trusted: hashing (std HashMap replaced by an association-list stand-in), stability of sort_by, the aggregate implementations (C07)."),
 
+ "C18": dict(engine="F", ref="5/C18",
+   technique="Kani on the WHOLE real visit_dir and ok_to_visit_dir, copied verbatim on every run onto a scripted, heap-free file system with symbolic links (node ids as paths; read_dir / read_link / canonicalize scripted)",
+   text="Bounded (one scripted tree of ten nodes, both traversal modes): with `symlinks` the search goes through a link with an absolute target to an ancestor (a cycle) and through a link whose target is relative to the directory of the link and lies outside - and less deep than - the root; every entry under the root or behind a link is listed exactly once, the ancestor is not replayed, the traversal terminates (unwinding assertions hold) and no error is counted; without the option links are listed once and no row comes from behind them. ok_to_visit_dir enters a directory iff its own inode is unseen and it is not a link or links are followed (all inodes).",
+   note="Bounded: one scripted link graph. Two genuine defects were found while writing this world and repaired (relative link targets resolved against the working directory; arithmetic overflow when a link leads less deep than the root). Not covered: mutual links, chains, self-links, dangling links, the OS."),
+
  "C05": dict(engine="V+F+K", ref="5/C05",
    technique="Kani on the verbatim bodies of Criteria::cmp / cmp_at (shim receiver types), on the positional / DESC arms of parse_order_by and on is_numeric_field over the whole Field enum; Verus contract on the real parse_order_by",
    text="Criteria::cmp is proved to be the lexicographic order over <= 3 keys and cmp_at to dispatch numeric / date / string keys and to reverse for desc, for all per-key outcomes; every documented integer column is proved numeric, date columns chronological, text columns string-ordered over the whole Field enum; a positional key k selects column k or is rejected. On the real parse_order_by: key list and direction list have equal length on every successful parse, positional keys are "
@@ -103,7 +108,6 @@ NOT_APPLICABLE = {
  
  
  "C17": "fault isolation is about read_dir/open failures, closed pipes and the process exit status (OS behaviour); the only closed fragment (error_count -> status) is proved under C10 and does not decide C17",
- "C18": "termination and at-most-once traversal over arbitrary symlink graphs is a whole-history property of visit_dir plus the OS namespace; ok_to_visit_dir needs a DirEntry that cannot be constructed by a verifier",
  "C19": "zip member enumeration is the zip crate over real files; its LIMIT gate is proved under C06 and mode decoding under C04, neither decides C19",
  "C20": "ignore matching is the regex crate (Kani ICE) and libgit2 over real repositories; the conversion functions cannot be executed by Kani nor specified in Verus",
 }
